@@ -149,6 +149,12 @@ func (t *topicTrie) matchTopic(topicSlice []string, rs subscription.ClientSubscr
 			cnode.matchTopic(topicSlice[1:], rs)
 		}
 	}
+	t.matchLiteral(topicSlice, rs)
+}
+
+// matchLiteral follows only the child named like the first level of topicSlice (no wildcard at this level)
+func (t *topicTrie) matchLiteral(topicSlice []string, rs subscription.ClientSubscriptions) {
+	endFlag := len(topicSlice) == 1
 	if cnode := t.children[topicSlice[0]]; cnode != nil {
 		if endFlag {
 			setRs(cnode, rs)
@@ -165,6 +171,12 @@ func (t *topicTrie) matchTopic(topicSlice []string, rs subscription.ClientSubscr
 func (t *topicTrie) getMatchedTopicFilter(topicName string) subscription.ClientSubscriptions {
 	topicLv := strings.Split(topicName, "/")
 	subs := make(subscription.ClientSubscriptions)
+	if isSystemTopic(topicName) {
+		// The Server MUST NOT match Topic Filters starting with a wildcard character (# or +) with Topic Names
+		// beginning with a $ character [MQTT-4.7.2-1]. The shared trie holds filters of every kind.
+		t.matchLiteral(topicLv, subs)
+		return subs
+	}
 	t.matchTopic(topicLv, subs)
 	return subs
 }
